@@ -23,6 +23,10 @@ func runC14(c *mon.Ctx) {
 			c14CallersKeepCalling(c, r)
 			return
 		}
+		if flagMode == "tokens" {
+			c14Token(c, r)
+			return
+		}
 		c14Life(c, r)
 	})
 }
@@ -381,4 +385,142 @@ func c14CallersKeepCalling(c *mon.Ctx, r *mon.Rand) {
 		c.Sample(map[string]interface{}{"config": desc, "close_took_ms": took.Milliseconds(), "pending_registrations_after_close_began": ea})
 	}
 	c.Distinct(mon.Hash64("keepcalling", fmt.Sprint(desc), fmt.Sprint(r.U64())))
+}
+
+// c14Token: the enter/close handshake under the deterministic token scheduler.
+// Producers (1-3 calls each: counter, gauge, bucket sample, Flush) and 1-2
+// Close callers are serialised at the reporter's schedule points (M3Entered
+// after a caller registered as pending, M3Checked after it looked at the
+// closed flag, M3CloseCAS / M3CloseSpin (every turn of Close's wait loop) /
+// M3CloseDrained / M3CloseDonech): exactly one of them runs at a time and the
+// PRNG picks who continues at every point, so the interleavings of the three
+// steps of the enter protocol with the steps of Close are explored one by one,
+// each a real execution, the trace being the replayable witness. The queue is
+// larger than the number of calls, so no registered goroutine can block on it;
+// the batching goroutine is not registered and runs freely.
+// Oracle: no panic (send on a closed queue), exactly one Close returns nil,
+// the others an error, nothing is written to the socket after Close returned,
+// no reporter goroutine is left, calls after Close are no-ops.
+func c14Token(c *mon.Ctx, r *mon.Rand) {
+	opts := m3.Options{Service: "s", Env: "e", MaxQueueSize: 4096, HostPorts: []string{mon.DeadPort()}}
+	if r.Bool() {
+		opts.Protocol = m3.Binary
+	}
+	ts := mon.NewTokenSched(r.Fork(5))
+	ts.Sticky = []int{0, 30, 60, 85}[r.Intn(4)]
+	before := m3Goroutines()
+	env, err := newM3Env(0, opts, ts.Hook)
+	if err != nil {
+		c.Inconclusive("NewReporter: " + err.Error())
+		return
+	}
+	rep := env.Rep
+	cnt := rep.AllocateCounter("c", map[string]string{"a": "b"})
+	g := rep.AllocateGauge("g", nil)
+	hv := rep.AllocateHistogram("h", nil, tally.ValueBuckets{1, 2})
+	bk := hv.ValueBucket(1, 2)
+	nProd := r.Range(1, 3)
+	nClose := r.Range(1, 2)
+	prog := make([][]int, nProd)
+	for p := range prog {
+		for k, n := 0, r.Range(1, 3); k < n; k++ {
+			prog[p] = append(prog[p], r.Intn(4))
+		}
+	}
+	desc := map[string]interface{}{"protocol": protoName(opts.Protocol), "producers": prog, "close_callers": nClose, "sticky": ts.Sticky}
+	c.LogCase(fmt.Sprint(desc))
+	stop := c.Watchdog(120*time.Second, "no-progress(token schedule wedged: a registered goroutine blocks)", desc)
+	defer stop()
+	closeErrs := make([]error, nClose)
+	var closeReturned int64
+	var fns []func()
+	for p := range prog {
+		ops := prog[p]
+		fns = append(fns, func() {
+			c.Guard("panic-m3", func() interface{} { return desc }, func() {
+				for _, o := range ops {
+					ts.Yield()
+					switch o {
+					case 0:
+						cnt.ReportCount(1)
+					case 1:
+						g.ReportGauge(1)
+					case 2:
+						bk.ReportSamples(1)
+					default:
+						rep.Flush()
+					}
+				}
+			})
+		})
+	}
+	for k := 0; k < nClose; k++ {
+		k := k
+		fns = append(fns, func() {
+			c.Guard("panic-m3-close", func() interface{} { return desc }, func() {
+				ts.Yield()
+				closeErrs[k] = rep.Close()
+				if closeErrs[k] == nil {
+					atomic.StoreInt64(&closeReturned, mon.NextSeq())
+				}
+			})
+		})
+	}
+	ts.Run(fns)
+	c.Eval(1)
+	bad := func(sig, why string) {
+		desc["trace"] = ts.TraceString()
+		c.Violation(sig, map[string]interface{}{"why": why, "case": desc})
+	}
+	nilCount := 0
+	for _, e := range closeErrs {
+		if e == nil {
+			nilCount++
+		}
+	}
+	if nilCount != 1 {
+		bad("close-results", fmt.Sprintf("%d of %d Close callers got nil: %v", nilCount, nClose, closeErrs))
+	}
+	nFlushBefore := len(env.flushes())
+	c.Guard("panic-m3-after-close", func() interface{} { return desc }, func() {
+		cnt.ReportCount(1)
+		bk.ReportSamples(1)
+		rep.Flush()
+		if err := rep.Close(); err == nil {
+			bad("second-close-returns-nil", "Close after Close returned nil")
+		}
+	})
+	fl := env.flushes()
+	cr := atomic.LoadInt64(&closeReturned)
+	for _, s := range fl {
+		if cr > 0 && s > cr {
+			bad("emitted-after-close-returned", "a datagram was written to the socket after Close had returned")
+			break
+		}
+	}
+	if len(fl) != nFlushBefore {
+		bad("emitted-after-close-returned", fmt.Sprintf("%d datagrams were written by calls made after Close", len(fl)-nFlushBefore))
+	}
+	leaked := true
+	for t := 0; t < 200; t++ {
+		if m3Goroutines() <= before {
+			leaked = false
+			break
+		}
+		time.Sleep(25 * time.Millisecond)
+	}
+	if leaked {
+		bad("m3-goroutine-leak", "process/timeLoop goroutines still running 5s after Close returned")
+	}
+	tally.VerifSetHook(nil)
+	trace := ts.TraceString()
+	if ts.Switches() > 0 {
+		c.Distinct(mon.Hash64(trace, fmt.Sprint(prog, nClose)))
+		c.Class("schedules-with-a-switch-inside-the-handshake", 1)
+	}
+	c.Event("schedule-steps", int64(len(ts.Trace)))
+	if c.WantSample() {
+		desc["trace"] = trace
+		c.Sample(desc)
+	}
 }
